@@ -23,6 +23,7 @@ using namespace phosg;
 
 typedef Vector2<int64_t> P2;
 typedef Vector3<int64_t> P3;
+typedef Vector4<int64_t> P4;
 // a value type whose move constructor / move assignment leave a visible mark (-777) in the source: an entry that is
 // still in the tree but was moved from shows up in every later observation
 struct MV {
@@ -42,6 +43,7 @@ struct MV {
 typedef KDTree<P2, int64_t> T2;
 typedef KDTree<P2, MV> T2m;
 typedef KDTree<P3, int64_t> T3;
+typedef KDTree<P4, int64_t> T4;
 
 static string vec(const vector<long>& v) {
   string s = "[";
@@ -64,6 +66,8 @@ static vector<long> flat(const P2& p, int64_t v) { return {p.x, p.y, v}; }
 static vector<long> flat(const P3& p, int64_t v) { return {p.x, p.y, p.z, v}; }
 static vector<long> coords(const P2& p) { return {p.x, p.y}; }
 static vector<long> coords(const P3& p) { return {p.x, p.y, p.z}; }
+static vector<long> flat(const P4& p, int64_t v) { return {p.x, p.y, p.z, p.w, v}; }
+static vector<long> coords(const P4& p) { return {p.x, p.y, p.z, p.w}; }
 // The tree only compares coordinates, so a history may run on real coordinates (c - g_co) * g_cs (order-preserving):
 // negative values and neighbours that are 2^31, 2^32 or 2^40 apart; events carry the logical coordinates.
 static int64_t g_cs = 1, g_co = 0;
@@ -73,6 +77,8 @@ static P2 R(const P2& p) { return P2(rc(p.x), rc(p.y)); }
 static P3 R(const P3& p) { return P3(rc(p.x), rc(p.y), rc(p.z)); }
 static P2 L(const P2& p) { return P2(lc(p.x), lc(p.y)); }
 static P3 L(const P3& p) { return P3(lc(p.x), lc(p.y), lc(p.z)); }
+static P4 R(const P4& p) { return P4(rc(p.x), rc(p.y), rc(p.z), rc(p.w)); }
+static P4 L(const P4& p) { return P4(lc(p.x), lc(p.y), lc(p.z), lc(p.w)); }
 
 template <class T>
 static vector<vector<long>> items_of(const T& t) {
@@ -300,8 +306,10 @@ static void random_history(vt::Trace& tr, vt::Rng& r, int dims, int len) {
   auto rp = [&]() {
     if constexpr (std::is_same_v<P, P2>)
       return P2(r.below(side), r.below(side));
-    else
+    else if constexpr (std::is_same_v<P, P3>)
       return P3(r.below(side), r.below(side), r.below(side));
+    else  // 4-D: a small side, so that points agreeing in all but one coordinate are common
+      return P4(r.below(min(side, 3)), r.below(min(side, 3)), r.below(min(side, 3)), r.below(side));
   };
   for (int n = 0; n < len; n++) {
     unsigned c = r.below(100);
@@ -346,6 +354,10 @@ static void random_history(vt::Trace& tr, vt::Rng& r, int dims, int len) {
           hi.x++;
           hi.y++;
           hi.z++;
+          if constexpr (std::is_same_v<P, P4>) {
+            if (lo.w > hi.w) swap(lo.w, hi.w);
+            hi.w++;
+          }
         }
       }
       ev_within(tr, *t, lo, hi);
@@ -395,7 +407,9 @@ int main(int argc, char** argv) {
     int nh = (tier == "quick" ? 48 : 2000) / nshards + 1;
     for (int h = 0; h < nh; h++) {
       int len = r.chance(15) ? 300 : (int)r.range(10, 120);
-      if (h % 3 == 2)
+      if (h % 7 == 6)
+        random_history<T4, P4>(tr, r, 4, len);
+      else if (h % 3 == 2)
         random_history<T3, P3>(tr, r, 3, len);
       else if (h % 3 == 1)
         random_history<T2m, P2>(tr, r, 2, len);
